@@ -202,14 +202,13 @@ def rule_live(env, shared):
             exits = set(b.exits())
             # exclude exits that are under "flag true" (gated out) or hand the ticket to the caller (Some(ticket))
             avoid = set(rel)
-            # a block that returns Some(ticket) hands the region over
+            # a definition of the return value that hands the region to the caller (Some(ticket) / true, see
+            # Ticket.handover_sites), and blocks reached only when the end flag is set, end the duty of this function
             handover = set()
+            hs = T.handover_sites(b, sa) if not b.is_closure else {}
             for bb in b.reachable(s):
-                for st in b.blocks[bb]["stmts"]:
-                    if st["k"] == "assign" and st["rv"]["k"] == "aggregate" and st["rv"].get("variant_name") == "Some":
-                        adm = T.admission_fact(ctx, bb)
-                        if adm is not None and unref(ev.operand(ctx, st["rv"]["ops"][0])) == unref(adm[1]):
-                            handover.add(bb)
+                if bb in hs and hs[bb][0]:
+                    handover.add(bb)
                 for f in block_facts(ev, ctx, bb):
                     if f[0] == "flag" and f[2] is True and T.role_of(f[1])[0] == "done":
                         handover.add(bb)
@@ -237,26 +236,21 @@ def rule_live(env, shared):
             continue
         k = "LIVE.e|%s" % env.fname(b)
         bad = None
-        for bi, blk in enumerate(b.blocks):
-            if blk["cleanup"]:
-                continue
-            for st in blk["stmts"]:
-                if st["k"] == "assign" and st["rv"]["k"] == "aggregate" and st["rv"].get("variant_name") == "None" \
-                        and st["rv"]["adt"].endswith("Option"):
-                    fs = block_facts(ev, ctx, bi)
-                    okk = False
-                    for f in fs:
-                        if f[0] == "lt" and len(f) == 3 and f[2][0] == "atomic" and T.role_of(f[2][2])[0] == "serving":
-                            okk = True
-                        if f[0] == "flag" and f[2] is True and T.role_of(f[1])[0] == "done":
-                            okk = True
-                        if f[0] == "eq" and len(f) == 3 and any(z[0] == "atomic" for z in (f[1], f[2])):
-                            okk = True  # admitted: LIVE.c requires the release
-                    if not okk:
-                        bad = b.file_line(st["loc"])
+        for bi, cases in sorted(T.ret_sites(b, sa).items()):
+            for (K, fs, _v) in cases:
+                okk = False
+                for f in fs:
+                    if f[0] == "lt" and len(f) == 3 and f[2][0] == "atomic" and T.role_of(f[2][2])[0] == "serving":
+                        okk = True
+                    if f[0] == "flag" and f[2] is True and T.role_of(f[1])[0] == "done":
+                        okk = True
+                    if T.is_admission(f):
+                        okk = True  # admitted: LIVE.c requires the release or a sound hand-over
+                if not okk:
+                    bad = b.file_line(b.term(bi)["loc"])
         if bad:
             out.append(Ob("LIVE.e", k, "viol", bad,
-                          "%s gives up a reserved ticket (returns None) although the ticket was neither passed, nor the end "
+                          "%s gives up a reserved ticket (returns) although the ticket was neither passed, nor the end "
                           "flag set, nor the caller admitted: the now-serving counter can never get past this ticket and every "
                           "holder of a later ticket spins forever" % env.fname(b)))
         else:
@@ -275,17 +269,21 @@ def rule_live(env, shared):
             if F.impl_self_adt(cb) != T.adt or cb.name != "progress_and_get_begin_idx":
                 # found by behaviour: callee returns Some(ticket) under admission
                 pass
-            rt = ev.operand(ctx, {"k": "copy", "place": t["dest"]})
-            if T.admitting_call(ctx, rt) is None:
-                continue
             dl = t["dest"]["l"] if not t["dest"]["p"] else None
+            rt = ev.operand(ctx, {"k": "copy", "place": t["dest"]})
+            admits = T.admitting_call(ctx, rt) is not None
+            if not admits and dl is not None and ev.callee_ctx(ctx, bi) is not None:
+                # the callee hands the ticket to its caller through its return value
+                admits = any(okk and hands for (okk, _g, _w, hands) in T.handover_sites(cb, F.impl_self_adt(cb) or sa).values())
+            if not admits:
+                continue
             k = "LIVE.d|%s" % env.fname(b)
             used_ok = False
             if dl is not None:
                 for bj, t2, c2 in b.calls():
                     mk = PURE.get(callee_model_key(c2))
-                    if mk in ("Option::and_then", "Option::map") and t2["args"] and t2["args"][0]["k"] in ("move", "copy") \
-                            and t2["args"][0]["place"]["l"] == dl:
+                    if mk in ("Option::and_then", "Option::map", "Try::branch") and t2["args"] \
+                            and t2["args"][0]["k"] in ("move", "copy") and t2["args"][0]["place"]["l"] == dl:
                         used_ok = True
             # or matched on (its discriminant is switched on) with the Some arm continuing
             if dl is not None and not used_ok:
@@ -293,6 +291,23 @@ def rule_live(env, shared):
                     for st in blk["stmts"]:
                         if st["k"] == "assign" and st["rv"]["k"] == "discr" and st["rv"]["place"]["l"] == dl:
                             used_ok = True
+            # or branched on (a boolean result, possibly negated / copied first)
+            if dl is not None and not used_ok:
+                aliases = {dl}
+                for _ in range(3):
+                    for bj, blk in enumerate(b.blocks):
+                        for st in blk["stmts"]:
+                            if st["k"] == "assign" and not st["place"]["p"]:
+                                rv = st["rv"]
+                                src = rv.get("op") if rv["k"] == "use" else (rv.get("a") if rv["k"] == "unop" else None)
+                                if isinstance(src, dict) and src.get("k") in ("copy", "move") and not src["place"]["p"] \
+                                        and src["place"]["l"] in aliases:
+                                    aliases.add(st["place"]["l"])
+                for bj, blk in enumerate(b.blocks):
+                    tt = blk["term"]
+                    if tt["k"] == "switch" and tt["discr"]["k"] in ("copy", "move") and not tt["discr"]["place"]["p"] \
+                            and tt["discr"]["place"]["l"] in aliases:
+                        used_ok = True
             # or returned as is (forwarding adaptors)
             if dl == 0:
                 used_ok = True
